@@ -19,7 +19,11 @@ BP_TOML = {
     "malformed": 'api = "0.10"\n[buildpack\n',
     "file-missing": None,
     "unknown-key": VALID_BP_TOML + "\n[zzz]\nq = 1\n",
+    # a valid descriptor that declares one SBOM format; the build result may still carry others
+    "valid-sbom-formats": VALID_BP_TOML.replace('version = "1.2.3"\n', 'version = "1.2.3"\nsbom-formats = ["application/vnd.cyclonedx+json"]\n'),
 }
+assert "sbom-formats" in BP_TOML["valid-sbom-formats"]
+VALID_TOMLS = ("valid", "valid-sbom-formats")
 MANDATORY = ["CNB_TARGET_OS", "CNB_TARGET_ARCH", "CNB_TARGET_DISTRO_NAME", "CNB_TARGET_DISTRO_VERSION"]
 
 LAUNCH = {"processes": [{"type": "web", "command": ["run"], "args": ["a b"], "default": True}], "labels": [["k", "v"]]}
@@ -102,6 +106,14 @@ def all_cfgs(thorough):
                                         yield dict(base, beh=beh)
 
 
+def pathvar_cfgs():
+    """every argument count with the lifecycle's path variables exported as well"""
+    for phase in ("detect", "build"):
+        for argc in range(0, 5):
+            for beh in (0, 1):
+                yield {"phase": phase, "arg0": 0, "argc": argc, "toml": "valid", "bpdir": True, "env": {k: True for k in MANDATORY}, "variant": False, "stale": False, "beh": beh, "pathvars": True}
+
+
 def planpath_cfgs():
     for pp in (1, 2, 3, 4, 5):
         for beh in range(len(DETECT_BEH)):
@@ -111,7 +123,7 @@ def planpath_cfgs():
 
 def reaches(cfg):
     """Reference: does this configuration reach detect/build code?"""
-    return (cfg["arg0"] in (0, 2) and cfg["argc"] == (2 if cfg["phase"] == "detect" else 3) and cfg["toml"] == "valid"
+    return (cfg["arg0"] in (0, 2) and cfg["argc"] == (2 if cfg["phase"] == "detect" else 3) and cfg["toml"] in VALID_TOMLS
             and cfg["bpdir"] and all(cfg["env"].values()))
 
 
@@ -150,6 +162,9 @@ def judge(w, cfg):
         for rel, data in STALE.items():
             open(w.p(rel), "wb").write(data)
     env = {k: v for k, v in DEFAULT_TARGET_ENV.items() if cfg["env"][k]}
+    if cfg.get("pathvars"):
+        # the lifecycle also exports its paths (Buildpack API >= 0.8); libcnb takes them from the arguments
+        env.update({"CNB_PLATFORM_DIR": w.p("platform"), "CNB_BUILD_PLAN_PATH": w.p("plan.toml"), "CNB_LAYERS_DIR": w.p("layers"), "CNB_BP_PLAN_PATH": w.p("bp_plan.toml")})
     if cfg["variant"]:
         env["CNB_TARGET_ARCH_VARIANT"] = "v8"
     arg0 = ARG0[cfg["arg0"]].replace("PHASE", phase)
@@ -376,7 +391,7 @@ def run(ctx):
     import itertools
     symbols = [(wi, var, ph) for wi in range(2) for var in (1, 2, 3) for ph in ("detect", "build")]
     seqs = [{"kind": "sequence", "symbols": [list(x) for x in seq]} for n in ((2, 3) if ctx.thorough else (2,)) for seq in itertools.product(symbols, repeat=n)]
-    cfgs = list(all_cfgs(ctx.thorough)) + list(planpath_cfgs()) + seqs
+    cfgs = list(all_cfgs(ctx.thorough)) + list(planpath_cfgs()) + list(pathvar_cfgs()) + seqs
     # ownership of nondeterminism: the first configurations run twice must give identical outcomes
     probe = [run_cfg((i, c, ctx.scratch)) for i, c in enumerate(cfgs[:5])]
     probe2 = [run_cfg((i, c, ctx.scratch)) for i, c in enumerate(cfgs[:5])]
@@ -395,7 +410,7 @@ def run(ctx):
     res.cov("distinct_nontrivial", len(nontrivial))
     res.cov("distinct_outcomes", sorted(outcomes))
     res.cov("determinism_replays", 5)
-    res.cov("rule", "configurations = executable name (phase, other, path/phase, phase.bak) x argument count 0..4 x buildpack.toml (valid, api 0.9/0.11/1/missing, malformed, file missing, unknown key) x CNB_BUILDPACK_DIR x each mandatory CNB_TARGET_* variable x ARCH_VARIANT x behaviour (4 detect; 16 pass results x SBOM sets + error + layer error for build) x stale outputs; plus, for valid detect invocations, the plan path as a bare file name, ./name, a path in a missing directory and non-UTF-8 plan / platform paths x 4 behaviours; each run as a real process; plus every in-process sequence of 2 (thorough 3) programmatic detect/build calls over 12 symbols, exit status and written files of each step compared with the same call alone in a fresh process; non-trivial = configurations that reach the phase or deviate from a valid invocation in exactly one dimension")
+    res.cov("rule", "configurations = executable name (phase, other, path/phase, phase.bak) x argument count 0..4 x buildpack.toml (valid, valid with a declared sbom-formats list, api 0.9/0.11/1/missing, malformed, file missing, unknown key) x CNB_BUILDPACK_DIR x each mandatory CNB_TARGET_* variable x ARCH_VARIANT x behaviour (4 detect; 16 pass results x SBOM sets + error + layer error for build) x stale outputs; plus, for valid detect invocations, the plan path as a bare file name, ./name, a path in a missing directory and non-UTF-8 plan / platform paths x 4 behaviours; every argument count with the lifecycle's CNB_*_DIR/PATH variables exported; each run as a real process; plus every in-process sequence of 2 (thorough 3) programmatic detect/build calls over 12 symbols, exit status and written files of each step compared with the same call alone in a fresh process; non-trivial = configurations that reach the phase or deviate from a valid invocation in exactly one dimension")
     res.cov("bound", {"deviations_from_valid_invocation": "<=3 all behaviours" if not ctx.thorough else "full product for detect and for build up to 3 deviations; beyond that build behaviours {first,last}"})
     res.cov("exhaustive", True)
     res.sample(cfgs[0])
